@@ -104,6 +104,7 @@ func checkC11(c *Ctx) {
 	checkC11Alias(c, p)
 	checkC11Operands(c, p)
 	checkC11Overwrite(c, p)
+	checkDecodeFresh(c, p)
 	checkC11Fresh(c, p)
 	checkC11Retain(c, p)
 	checkC11Append(c, p)
@@ -550,7 +551,7 @@ func checkC11Retain(c *Ctx, p *Program) {
 		}
 		hasBytes := false
 		for _, q := range f.Params {
-			if untrustedParam(q.Type()) {
+			if untrustedParam(q.Type()) || strings.HasSuffix(q.Type().String(), "cryptobyte.String") {
 				hasBytes = true
 			}
 		}
@@ -568,6 +569,7 @@ func checkC11Retain(c *Ctx, p *Program) {
 			how string
 		}
 		var keeps []kept
+		var selfAlias []string
 		for _, b := range f.Blocks {
 			for _, in := range b.Instrs {
 				switch x := in.(type) {
@@ -587,11 +589,27 @@ func checkC11Retain(c *Ctx, p *Program) {
 						if fa, ok := x.Call.Args[1].(*ssa.FieldAddr); ok {
 							keeps = append(keeps, kept{fa, x.Pos(), "cryptobyte ReadBytes leaves an alias of the parsed buffer"})
 						}
+						// the receiver itself is the slice (type T []byte): nothing can re-bind it afterwards
+						out := x.Call.Args[1]
+						for {
+							if ct, ok := out.(*ssa.ChangeType); ok {
+								out = ct.X
+								continue
+							}
+							if cv, ok := out.(*ssa.Convert); ok {
+								out = cv.X
+								continue
+							}
+							break
+						}
+						if par, ok := out.(*ssa.Parameter); ok && len(f.Params) > 0 && par == f.Params[0] && f.Signature.Recv() != nil {
+							selfAlias = append(selfAlias, p.pos(x.Pos())+": the decoded slice is left pointing into the parsed buffer (cryptobyte ReadBytes makes no copy)")
+						}
 					}
 				}
 			}
 		}
-		var bad []string
+		bad := append([]string{}, selfAlias...)
 		for _, k := range keeps {
 			// re-bound to a private copy later on every path to a return? (a dominating-later store of a
 			// copy of the field itself: approximated by "some store of a self-copy to the same field
